@@ -8,7 +8,7 @@ PID = "C13"
 RUNNER = "impl_m2.py"
 N = {"quick": 700, "thorough": 25000}
 LEVEL_RULE = ("event trees (depth <= 3, sequences and simultaneities) whose nodes (leaves included) carry a tempo: constant tempi on a "
-              "random subset of nodes, at most one trajectory (2-5 points, curved) per root-to-leaf path; plus a mixed stream with a "
+              "random subset of nodes, at most one trajectory (2-5 points, curved; a quarter of those with >= 3 points leave 60 bpm and return to it) per root-to-leaf path; plus a mixed stream with a "
               "trajectory below a trajectory (outside the model: only the implementation-side clauses are checked there). "
               "EventToMetrizedEvent.convert, the in-place metrize() on a copy, and a second metrize are run. "
               "non-trivial = at least two tempo-carrying nodes on one path, or a trajectory node")
@@ -24,12 +24,21 @@ def gen(seed, index):
     p_const = rng.choice([0.0, 0.3, 0.5, 0.8])
     p_traj = rng.choice([0.0, 0.15, 0.3])
 
+    def primo(e):
+        # "a tempo": a trajectory that leaves the neutral tempo and returns to it (first and last point 60 bpm)
+        if len(e) >= 4 and rng.random() < 0.25:
+            e[1][1] = g.hexf(60)
+            e[-1][1] = g.hexf(60)
+            if all(fl(p[1]) == 60 for p in e[2:-1]):
+                e[2][1] = g.hexf(rng.choice([30, 90, 120]))
+        return e
+
     def tempo(has_traj, span):
         r = rng.random()
         if r < p_traj and (mixed or not has_traj) and span > 0:
             n = rng.randint(2, 4)
             GE = g.GE(rng, kind="T", unit=max(1, span // n // 2), shapes=[0, 0.5, -0.5, 1, -1, 2, -2], last_positive=False, jumps=rng.choice([0, 0.2]))
-            e = GE.env(n)
+            e = primo(GE.env(n))
             return ["J"] + e[1:], True
         if r < p_traj + p_const:
             b = rng.choice([30, 40, 90, 120, 47.5, 60, 60])
@@ -60,7 +69,7 @@ def gen(seed, index):
         if node_traj:
             nn = rng.randint(2, 4)
             GE = g.GE(rng, kind="T", unit=max(1, span // nn // 2), shapes=[0, 0.5, -0.5, 1, -1, 2, -2], last_positive=False, jumps=rng.choice([0, 0.2]))
-            tp = ["J"] + GE.env(nn)[1:]
+            tp = ["J"] + primo(GE.env(nn))[1:]
         else:
             tp, _ = tempo(True, span)  # constant only
         return [kind, tp] + kids, span
@@ -111,18 +120,36 @@ def oracle(case, io, mo):
                 exp *= 60.0 / fl(tp[1])
             if abs(got - exp) > 1e-9 * max(1, exp) + 2e-10 * (len(tps) + 1) * 40:
                 return f"constant tempi {[fl(tp[1]) for tp in tps]}: leaf of {d / TICK} beats lasts {got!r}, the product formula gives {exp!r}"
-    # single tempo-carrying node that is the root: equals tempo conversion with that tempo
+    # trajectories as the only non-neutral tempi (at most one per path, every constant tempo 60): every leaf below a
+    # trajectory node lasts what tempo conversion with that node's tempo gives it (its span counted from the node's
+    # start), every other leaf keeps its length - wherever in the tree the node sits
     t = case[1]
-    others_neutral = all(all((tp[0] == "C" and fl(tp[1]) == 60) for tp in tps[1:]) for _, tps in leaves) if t[0] != "L" else True
-    if t[0] != "L" and others_neutral and t[1][0] == "J":
-        senv = sec_env(["T"] + t[1][1:])
-        steep = max([abs(fl(p[2])) for p in t[1][1:]] + [1])
-        from props.C07 import leaf_spans
-        spans = spans_t(t)
-        for (a, b), got in zip(spans, res):
-            exp = simpson(senv, a, b)
-            if abs(got - exp) > 2e-5 * steep ** 4 * max(1.0, abs(exp)) + 1e-9:
-                return f"single tempo node: leaf over [{a}, {b}) lasts {got!r}, tempo conversion gives {exp!r}"
+    consts_neutral = all(all(fl(tp[1]) == 60 for tp in tps if tp[0] == "C") for _, tps in leaves)
+    one_per_path = all(sum(1 for tp in tps if tp[0] == "J") <= 1 for _, tps in leaves)
+    if consts_neutral and one_per_path and any(tp[0] == "J" for _, tps in leaves for tp in tps):
+        exp = []
+
+        def walk(n, off, senv, steep):
+            tp = n[2] if n[0] == "L" else n[1]
+            if tp[0] == "J":
+                senv, off = sec_env(["T"] + tp[1:]), 0
+                steep = max([abs(fl(p[2])) for p in tp[1:]] + [1])
+            if n[0] == "L":
+                d = int(n[1])
+                exp.append((off, off + d, senv, steep))
+                return
+            o = off
+            for c in n[2:]:
+                walk(c, o, senv, steep)
+                if n[0] == "S":
+                    o += tdur(c)
+
+        walk(t, 0, None, 1)
+        for (a, b, senv, steep), got in zip(exp, res):
+            want = (b - a) / TICK if senv is None else simpson(senv, a, b)
+            if abs(got - want) > 2e-5 * steep ** 4 * max(1.0, abs(want)) + 1e-9:
+                where = "outside every trajectory" if senv is None else "below a trajectory node"
+                return f"single tempo node: leaf over [{a}, {b}) ({where}) lasts {got!r}, tempo conversion with that node's tempo gives {want!r}"
     return None
 
 
